@@ -714,17 +714,30 @@ def run(prop, tier):
             agg["samples"].append(r["sample"])
     agg["distinct_result_documents"] = len(docs)
     agg["traces_validated_against_impl"] = agg["evaluations"]
+    agg["bounds"] = {"tier": tier}
+    if prop == "C05":
+        # part B: in every repository state of the history BFS, run agrees with analyze
+        import p_repo
+        b = p_repo.bfs("C05", tier, 2 if tier == "quick" else 3, wall_cap=None if tier == "quick" else 900)
+        agg["repo_states"] = b["states"]
+        agg["repo_transitions"] = b["transitions"]
+        agg["states"] = agg.get("states", 0) + b["states"]
+        agg["transitions"] = agg.get("transitions", 0) + b["transitions"]
+        agg["evaluations"] += b["evaluations"]
+        agg["traces_validated_against_impl"] += b["traces_validated_against_impl"]
+        agg["distinct_nontrivial"] += b["distinct_nontrivial"]
+        agg["violations"].extend(b["violations"])
+        agg["rule"] += "; part B: explicit-state BFS over repository histories (depth %d, %d states): in every state `analyze --target-groups` then `run -c build` with traced children must agree on groups and started targets" % (b["depth_completed"], b["states"])
+    diverged = [d for r in results for d in r.get("diverged", [])]
+    agg["divergent_executions"] = len(diverged)
+    if diverged and not agg["violations"]:
+        raise common.EngineError("exploration was not deterministic and no violation was observed: " + "; ".join(diverged[:3]))
     by = {}
     for v in agg["violations"]:
         by[v["sig"]] = by.get(v["sig"], 0) + 1
     agg["by_sig"] = by
     agg["violation_count"] = len(agg["violations"])
     agg["violations"] = sorted(agg["violations"], key=lambda v: v["rank"])[:200]
-    agg["bounds"] = {"tier": tier}
-    diverged = [d for r in results for d in r.get("diverged", [])]
-    agg["divergent_executions"] = len(diverged)
-    if diverged and not agg["violations"]:
-        raise common.EngineError("exploration was not deterministic and no violation was observed: " + "; ".join(diverged[:3]))
     assume = ["children block in vhelper until released; the driver's expectation of who arrives is used for pacing only (a stall degrades coverage, never the verdict)",
               "tokio worker interleavings inside run between releases are free-running"]
     return agg, assume
@@ -733,6 +746,9 @@ def run(prop, tier):
 def replay(prop, path):
     body = json.load(open(path))
     case = body["case"]
+    if "ops" in case:
+        import p_repo
+        return p_repo.replay(prop, path)
     if "c16" in case:
         r = c16_task(case["c16"])
     elif "c06b" in case:
